@@ -246,24 +246,33 @@ theorem d_decorated_dispatch (f : α × α → α) (m : Mask) (g : Geom α) (gv 
   rw [totalPixels_eq]
   cases s with
   | int s =>
-    simp only [Impl.performOverSampling, Impl.SubSpec.expand]
+    have hperf : Impl.performOverSampling (α := α) (Spec.unmaskedPixels m).length
+        (.uniform (.int s)) = !(s == 1) := rfl
+    rw [hperf]
     by_cases h1 : s = 1
-    · subst h1; simp
-    · have : ¬ ∀ x ∈ List.replicate (Spec.unmaskedPixels m).length s, x = 1 := by
+    · subst h1
+      have hall : ∀ x ∈ (Impl.SubSpec.int 1).expand (Spec.unmaskedPixels m).length, x = 1 := by
+        intro x hx; exact (List.mem_replicate.mp hx).2
+      rw [if_pos hall, if_neg (by simp)]
+    · have hb : (!(s == 1)) = true := by simp [h1]
+      have hnot : ¬ ∀ x ∈ (Impl.SubSpec.int s).expand (Spec.unmaskedPixels m).length, x = 1 := by
         intro h
         exact h1 (h s (List.mem_replicate.mpr ⟨by omega, rfl⟩))
-      rw [if_neg this]
-      simp [h1]
+      rw [if_pos hb, if_neg hnot]
   | arr l =>
-    simp only [Impl.performOverSampling, Impl.SubSpec.expand] at hlen hpos ⊢
+    have hperf : Impl.performOverSampling (α := α) (Spec.unmaskedPixels m).length
+        (.uniform (.arr l)) = !(l.foldl (· + ·) 0 == (Spec.unmaskedPixels m).length) := rfl
+    rw [hperf]
+    simp only [Impl.SubSpec.expand] at hlen hpos
     have hiff := sum_eq_length_iff_all_one l hpos
     rw [hlen] at hiff
     by_cases h1 : l.foldl (· + ·) 0 = (Spec.unmaskedPixels m).length
-    · rw [if_pos (hiff.mp h1)]
-      simp [h1]
-    · have : ¬ ∀ x ∈ l, x = 1 := fun h => h1 (hiff.mpr h)
-      rw [if_neg this]
-      simp [h1]
+    · have hall : ∀ x ∈ (Impl.SubSpec.arr l).expand (Spec.unmaskedPixels m).length, x = 1 :=
+        hiff.mp h1
+      rw [if_pos hall, if_neg (by simp [h1])]
+    · have hnot : ¬ ∀ x ∈ (Impl.SubSpec.arr l).expand (Spec.unmaskedPixels m).length, x = 1 :=
+        fun h => h1 (hiff.mpr h)
+      rw [if_neg hnot, if_pos (by simp [h1])]
 
 omit [IsStrictOrderedRing α] in
 /-- (d) with `OverSamplingIterate` the decorator always hands over to the iterative scheme. -/
